@@ -134,8 +134,10 @@ pub fn mkdate(v: &[i64]) -> NaiveDate {
 }
 
 pub fn mkdatetime(v: &[i64]) -> NaiveDateTime {
+    // optional 8th element: a sub-microsecond part in nanoseconds
+    let ns = v.get(7).copied().unwrap_or(0) as u32;
     mkdate(v)
-        .and_hms_micro_opt(v[3] as u32, v[4] as u32, v[5] as u32, v[6] as u32)
+        .and_hms_nano_opt(v[3] as u32, v[4] as u32, v[5] as u32, (v[6] as u32) * 1000 + ns)
         .expect("scenario: valid time")
 }
 
